@@ -135,3 +135,59 @@ func contains(ss []string, s string) bool {
 	}
 	return false
 }
+
+// definitelyErrorReturn: the return yields a non-nil error for sure: a call/composite in the error position
+// (fmt.Errorf, errors.New, status.Errorf ...) or an error variable that a dominating fact knows to be non-nil.
+func definitelyErrorReturn(g *core.Graph, f *core.Func, rn *core.GNode) bool {
+	rs, ok := rn.Ast.(*ast.ReturnStmt)
+	if !ok {
+		return false
+	}
+	ei := errResultIndex(f)
+	if ei < 0 || len(rs.Results) != ei+1 {
+		return false
+	}
+	info := f.Pkg.TypesInfo
+	e := core.Unparen(rs.Results[ei])
+	if core.IsNil(info, e) {
+		return false
+	}
+	if o := core.ObjOf(info, e); o != nil {
+		if v, isVar := o.(*types.Var); isVar {
+			if v.Parent() != nil && v.Pkg() != nil && v.Parent() == v.Pkg().Scope() {
+				return true // package-level sentinel error (io.EOF, ErrNotFound ...)
+			}
+			// `return nil, 0, err`: every other result is a zero literal - the error-return convention
+			allZero := true
+			for i, r := range rs.Results {
+				if i == ei {
+					continue
+				}
+				r = core.Unparen(r)
+				if core.IsNil(info, r) {
+					continue
+				}
+				if tv, ok := info.Types[r]; ok && tv.Value != nil {
+					s := tv.Value.ExactString()
+					if s == "0" || s == "false" || s == `""` {
+						continue
+					}
+				}
+				if cl, ok := r.(*ast.CompositeLit); ok && len(cl.Elts) == 0 {
+					continue
+				}
+				allZero = false
+			}
+			if allZero && len(rs.Results) > 1 {
+				return true
+			}
+			for _, fc := range g.FactsAt(rn) {
+				if x, eq, ok := core.NilCompare(info, fc.Expr); ok && fc.Tag == nil && fc.Unless == nil && core.ObjOf(info, x) == o && eq != fc.Truth && g.FactFresh(fc, rn) {
+					return true
+				}
+			}
+			return false
+		}
+	}
+	return true
+}
